@@ -239,6 +239,21 @@ def slice_strs(fb, body, sl):
                 out += promoted_strs(fb, body, o['promoted'], o.get('powner'))
             elif 'uneval' in o and 'promoted' not in o:
                 out.append('const:' + o['uneval'])
+            elif 'static' in o:
+                out += static_strs(fb, body, o['static'])
+    return out
+
+
+def static_strs(fb, body, path):
+    """string value(s) of a `static NAME: &str = ".."` item of the same crate, referenced as `&NAME`"""
+    out = []
+    ctype = 'Rlib' if (body.crate, 'Rlib') in fb.available() else 'ProcMacro'
+    for b in fb.bodies(body.crate, ctype):
+        if b.nid == strip_generics(path):
+            for bb, j, st in b.all_assigns():
+                for oo in rv_operands(st['rv'])[0]:
+                    if 'str' in oo:
+                        out.append(oo['str'])
     return out
 
 
